@@ -14,45 +14,17 @@ comparator   : Trace_OtlpGrouping.tla (OtlpModel!Violations) for BOTH directions
 """
 import json
 import os
-import shutil
-import subprocess
-
 import vlib
 
 S = "OtlpGrouping"
 E = "OtelSDK"  # root module of the family: end-to-end contract; its trace spec judges every recorded line
-# modules the harness needs beyond harness/go.mod (until the coordinator adds them there)
-EXTRA_MODS = {
-    "go.opentelemetry.io/otel/exporters/stdout/stdoutlog": ("v0.11.0", "exporters/stdout/stdoutlog"),
-    "go.opentelemetry.io/otel/exporters/stdout/stdoutmetric": ("v1.35.0", "exporters/stdout/stdoutmetric"),
-    "go.opentelemetry.io/otel/exporters/stdout/stdouttrace": ("v1.35.0", "exporters/stdout/stdouttrace"),
-}
+SIGNALS = ["trace", "metric", "log", "zipkin"]
+CHUNK = 6000  # trace lines per TLC validation run
 
 
 def build(ctx):
-    """harness/c13 imports the stdout exporters; if harness/go.mod does not list them yet, build with an own
-    copy of it (-modfile) that adds the require/replace lines (the replace root follows VERIF_REPO)."""
-    base = open(os.path.join(vlib.HARNESS, "go.mod")).read()
-    if all((m + " ") in base for m in EXTRA_MODS):
-        return ctx.go_build("c13")
-    vlib.sync_gosum()
-    req = "".join("\t%s %s\n" % (m, v) for m, (v, _) in sorted(EXTRA_MODS.items()))
-    rep = "".join("\t%s => /repo/%s\n" % (m, d) for m, (_, d) in sorted(EXTRA_MODS.items()))
-    txt = base.replace("require (\n", "require (\n" + req, 1).replace("replace (\n", "replace (\n" + rep, 1)
-    txt = txt.replace("=> /repo", "=> " + vlib.REPO)
-    mod = os.path.join(ctx.work, "go.c13.mod")
-    open(mod, "w").write(txt)
-    shutil.copy(os.path.join(vlib.HARNESS, "go.sum"), os.path.join(ctx.work, "go.c13.sum"))
-    out = os.path.join(ctx.work, "bin-c13")
-    env = dict(os.environ)
-    env.update(vlib.GOENV)
-    p = subprocess.run(["go", "build", "-modfile=" + mod, "-tags", "verif", "-o", out, "./c13"], cwd=vlib.HARNESS, env=env,
-                       stdout=subprocess.PIPE, stderr=subprocess.STDOUT, text=True)
-    if p.returncode != 0:
-        raise vlib.Inconclusive("go build c13 (own modfile) failed:\n%s" % p.stdout[-4000:])
-    return out
-SIGNALS = ["trace", "metric", "log", "zipkin"]
-CHUNK = 6000  # trace lines per TLC validation run
+    """harness/c13 (imports the stdout exporters, listed in harness/go.mod)"""
+    return ctx.go_build("c13")
 
 
 def tla_set(xs):
@@ -204,6 +176,7 @@ def run(ctx):
             ctx.note_inconclusive(s)
         return res
 
+    stdout_obs = {}  # discrepancies seen only in the stdout exporters' JSON: observations, never violations
     pool = {"replay": [], "random": [], "e2e": []}  # recorded trace lines waiting for the comparator
 
     def validate(direction, flush=False):
@@ -227,6 +200,15 @@ def run(ctx):
                     recs[i] = json.loads(chunk[i])
                 rec = recs[i]
                 for sg in signatures(v, rec, tables, direction):
+                    if v.get("proto") == "stdout":
+                        # the statement names the OTLP exporters and Zipkin: what only the stdout exporters' JSON shows is an
+                        # observation (a discrepancy the OTLP projection shows as well is judged through its own VIOL records)
+                        k = json.dumps({x: sg[x] for x in sg if x not in ("dir", "pipe")}, sort_keys=True)
+                        o = stdout_obs.setdefault(k, {"signature": json.loads(k), "count": 0,
+                                                      "sample": {"dir": direction, "config": rec.get("cfg"), "pipe": rec.get("pipe"),
+                                                                 "viol": v, "batch": rec["batch"][:3]}})
+                        o["count"] += 1
+                        continue
                     ctx.violation(sg, replay={"viol": v, "config": rec.get("cfg"), "case": rec.get("case"), "rseed": rec.get("rseed"),
                                               "batch": rec["batch"],
                                               "outs": [o for o in rec["outs"] if v.get("proto") in (o["proto"], "both")][:2]})
@@ -298,7 +280,8 @@ def run(ctx):
     # ---- observations outside the verdict (inputs that are not legal for the data model)
     pf = os.path.join(ctx.work, "probe.json")
     ctx.run([binp, "probe", "-out", pf], timeout=600)
-    ctx.extra["observations"] = {"invalid_utf8_strings": json.load(open(pf)),
+    ctx.extra["observations"] = {"stdout_only_discrepancies": sorted(stdout_obs.values(), key=lambda o: -o["count"])[:20],
+                                 "invalid_utf8_strings": json.load(open(pf)),
                                  "stdout_exporters": "a NaN / Inf value makes the stdout exporters return an error for the whole batch "
                                                      "(encoding/json); such cases have no stdout observation (counters stdout_refused_*)"}
 
